@@ -127,7 +127,7 @@ class WorkerHarness:
     """
 
     def __init__(self, entities, workers, do_op, op_gap=None, setup=None, max_events=200_000, max_per_instant=20_000,
-                 after_event=None):
+                 after_event=None, start_ns=0):
         from happysimulator import Event, Instant, Simulation
 
         self.ops = []           # OpRec in order of operation start (global execution order)
@@ -140,11 +140,12 @@ class WorkerHarness:
 
         Worker = _worker_class()
         self.workers = [Worker(i, list(w.get("ops") or []), harness, do_op, gap_of) for i, w in enumerate(workers)]
-        self.sim = Simulation(entities=list(entities) + self.workers)
+        # start_ns > 0: a later "epoch" on entities that already lived through an earlier (abandoned) simulation
+        self.sim = Simulation(start_time=Instant(int(start_ns)), entities=list(entities) + self.workers)
         if setup is not None:
             setup(self.sim)
         for wk, w in zip(self.workers, workers):
-            self.sim.schedule(Event(time=Instant(abs(int(w.get("start") or 0)) % 4096 * TICK), event_type="go", target=wk))
+            self.sim.schedule(Event(time=Instant(int(start_ns) + abs(int(w.get("start") or 0)) % 4096 * TICK), event_type="go", target=wk))
         self.probe = SimProbe(self.sim, max_per_instant=max_per_instant, max_events=max_events, log=False,
                               on_event=self._on_event)
 
